@@ -31,26 +31,14 @@ theorem parseExample_adv {s s' : PS} {e : Example} (h : parseExample s = .ok (e,
   obtain ⟨_, a5, _, _⟩ := consumeInt_post h5
   obtain ⟨a6, _, _⟩ := consume_post h6
   have a7 : Adv s6 s7 [] := by
+    unfold skipFree at h7
     split at h7
     · cases h7; exact Adv.refl _
     · split at h7
       · cases h7
       · cases h7; exact Adv.of_pos
-  have hs : s' = s7 := by
-    split at h
-    · split at h
-      · cases h
-      · split at h
-        · cases h
-        · split at h
-          · cases h
-          · split at h
-            · cases h
-            · split at h
-              · cases h
-              · cases h; rfl
-    · cases h
-  subst hs
+  obtain ⟨e', _, h⟩ := h
+  cases h
   exact ⟨_, (((((a1.trans a2).trans a3).trans a4).trans a5).trans a6).trans a7⟩
 
 theorem examplesLoop_adv (fuel : Nat) : ∀ {acc : List Example} {s s' : PS} {ex : List Example},
@@ -272,7 +260,7 @@ def ruleOkW (cfg : Cfg) (r : Rule) : Prop :=
 theorem parseRule_post {cfg : Cfg} {s s' : PS} {r : Rule} (h : parseRule cfg s = .ok (r, s'))
     (inv : SupInv s.rules) :
     ∃ new, Adv s s' new ∧ ruleOkW cfg r ∧ supOk s.rules r = true ∧ Recorded s'.consumed r := by
-  unfold parseRule at h
+  unfold parseRule parseRuleWith at h
   simp only [bind_ok, Prod.exists] at h
   obtain ⟨name, cat, s1, h1, d, ex, rel, sup, s2, h2, cut, nb, s3, h3, c4, s4, h4, subs, s5, h5,
     conds, h6, ext, s6, h7, u, h8, h⟩ := h
